@@ -134,7 +134,12 @@ def stepInst (e : TEnv) (inst : Inst) (w : List String) : Inst × String :=
     | _, _, _ => (inst, "bad-op")
   | .ideal t b, ["batch", s, vs, rm] => match parseHexNat s, parseList vs, parseList rm with
     -- a batch that only names never-written positions changes nothing; its result code is backend-specific
-    | some s, some vs, some rm => let (t', r) := upd t (Ideal.batch 0 t s vs rm)
+    | some s, some vs, some rm =>
+      -- a removal-only batch (no leaves to write) whose start position lies beyond capacity: the in-memory backends
+      -- reject it (nothing changes), the persistent backend ignores the start and performs the removals — both are
+      -- "the documented effect, or none"; the specification follows the backend it stands for
+      let s := if vs.isEmpty ∧ s > t.cap ∧ (b == "pm" || b == "pmdisk") then 0 else s
+      let (t', r) := upd t (Ideal.batch 0 t s vs rm)
       (.ideal t' b, if vs.isEmpty ∧ ¬ rm.isEmpty ∧ rm.all (fun i => i ≥ t.next ∧ i < t.cap) then "n/a" else r)
     | _, _, _ => (inst, "bad-op")
   -- ---------------------------------------------------------------- observers
